@@ -694,13 +694,14 @@ impl SetComprehension {
 
 impl Capture {
     fn evaluate(&self, exec: &mut ExecutionContext) -> Result<Value, ExecutionError> {
-        Ok(Value::from_nodes(
-            exec.graph,
-            exec.mat
-                .nodes_for_capture_index(self.stanza_capture_index as u32),
-            self.quantifier,
-        )
-        .into())
+        let mut nodes = exec
+            .mat
+            .nodes_for_capture_index(self.stanza_capture_index as u32)
+            .peekable();
+        if matches!(self.quantifier, tree_sitter::CaptureQuantifier::One) && nodes.peek().is_none() {
+            return Err(ExecutionError::UndefinedCapture(format!("{}", self)));
+        }
+        Ok(Value::from_nodes(exec.graph, nodes, self.quantifier).into())
     }
 }
 
